@@ -42,7 +42,7 @@ Qed.
 
 Lemma gen_array_GetValues l i j F : (Z.of_nat (length l) < two63)%Z -> 30 <= F ->
   call_at F (arr_val l) id_GetValues [VInt i; VInt j] =
-  match get_values l i j with Ret r => ROk (arr_val r, arr_val l) | _ => RPanic end.
+  match get_values l i j with Ret r => ROk (arr_val r, arr_val l) | _ => RPanic (arr_val l) end.
 Proof.
   intros HL HF. rewrite <- (get_values_refines A l i j). unfold get_values_impl.
   fuel F 30. gocall. rewrite (gen_toZeroBased A zero ext) by lia.
@@ -64,7 +64,7 @@ Qed.
 (* ---------- list.go: delegation ---------- *)
 Lemma gen_list_GetValues n l i j F : (Z.of_nat (length l) < two63)%Z -> 36 <= F ->
   call_at F (lst_val n l) id_GetValues [VInt i; VInt j] =
-  match get_values l i j with Ret r => ROk (arr_val r, lst_val n l) | _ => RPanic end.
+  match get_values l i j with Ret r => ROk (arr_val r, lst_val n l) | _ => RPanic (lst_val n l) end.
 Proof.
   intros HL HF. fuel F 36. gocall. rewrite gen_array_GetValues by lia.
   destruct (get_values l i j); gorun; reflexivity.
@@ -72,7 +72,7 @@ Qed.
 
 Lemma gen_list_SetValue n l i a F : 26 <= F ->
   call_at F (lst_val n l) id_SetValue [VInt i; VElem a] =
-  match set_value l i a with Ret l' => ROk (VTuple [], lst_val n l') | _ => RPanic end.
+  match set_value l i a with Ret l' => ROk (VTuple [], lst_val n l') | _ => RPanic (lst_val n l) end.
 Proof.
   intros HF. unfold set_value. fuel F 26. gocall. rewrite (gen_array_SetValue A zero ext) by lia.
   destruct (pos (length l) i); gorun; reflexivity.
@@ -118,13 +118,13 @@ Definition same_obs (v : val A) (ob : lobs A) : Prop :=
 Lemma gen_lstep n l o F :
   translated o = true -> (Z.of_nat (length l) + 1 < two63)%Z -> length l + 100 <= F ->
   match snd (lstep_spec zero eqb l o) with
-  | LPanic => run_method F (lst_val n l) (fst (gen_lop o)) (snd (gen_lop o)) = Panic
+  | LPanic => call_at F (lst_val n l) (fst (gen_lop o)) (snd (gen_lop o)) = RPanic (lst_val n l)
   | LHang => False
-  | ob => exists v, run_method F (lst_val n l) (fst (gen_lop o)) (snd (gen_lop o)) =
-                    Ret (v, lst_val n (fst (lstep_spec zero eqb l o))) /\ same_obs v ob
+  | ob => exists v, call_at F (lst_val n l) (fst (gen_lop o)) (snd (gen_lop o)) =
+                    ROk (v, lst_val n (fst (lstep_spec zero eqb l o))) /\ same_obs v ob
   end.
 Proof.
-  intros T HL HF. unfold MiniGo.run_method, MiniGo.call_at.
+  intros T HL HF.
   destruct o; try discriminate T; cbn [gen_lop fst snd lstep_spec].
   - (* InsertValue *)
     rewrite (gen_list_InsertValue_impl A zero ext) by lia. rewrite (insert_value_refines A zero).
@@ -172,16 +172,16 @@ Proof.
   - cbn. lia.
 Qed.
 
-(* run a history with the generated methods: the list object and the observations (a panicking call
-   leaves the list as it was: the specification says so, C01_panic_frame, and MiniGo's Panic carries no state) *)
+(* run a history with the generated methods: the list object and the observations; the history goes on from
+   the receiver as each call left it, also after a panic (a MiniGo panic carries the receiver at that point) *)
 Fixpoint gen_lrun (F : nat) (recv : val A) (ops : list (lop A)) : option (val A * list (out (val A))) :=
   match ops with
   | [] => Some (recv, [])
   | o :: rest =>
-    match run_method F recv (fst (gen_lop o)) (snd (gen_lop o)) with
-    | Ret (v, recv') => option_map (fun r => (fst r, Ret v :: snd r)) (gen_lrun F recv' rest)
-    | Panic => option_map (fun r => (fst r, Panic :: snd r)) (gen_lrun F recv rest)
-    | Hang => None
+    match call_at F recv (fst (gen_lop o)) (snd (gen_lop o)) with
+    | ROk (v, recv') => option_map (fun r => (fst r, Ret v :: snd r)) (gen_lrun F recv' rest)
+    | RPanic recv' => option_map (fun r => (fst r, Panic :: snd r)) (gen_lrun F recv' rest)
+    | _ => None
     end
   end.
 Definition agrees (g : out (val A)) (ob : lobs A) : Prop :=
@@ -212,7 +212,7 @@ Proof.
     destruct (lrun (lstep_spec zero eqb) l' rest) as [lf obs] eqn:ER. cbn [fst snd] in *.
     destruct ob; try (destruct ST as [v [ER' SO]]; rewrite ER', EG; cbn [option_map fst snd];
                       eexists; split; [reflexivity|constructor; [exact SO|exact FA]]).
-    + (* panic: the specification leaves the list unchanged *)
+    + (* panic: the generated call and the specification both leave the list unchanged *)
       rewrite ST. assert (l' = l) by (apply (C01_panic_frame A zero eqb l o); exact EL). subst l'.
       rewrite EG. cbn [option_map fst snd]. eexists; split; [reflexivity|constructor; [exact I|exact FA]].
     + destruct ST.
@@ -278,6 +278,19 @@ Theorem C01_gen_history_refinement :
       Forall2 (agrees A) gobs (snd (lrun (lstep_spec zero eqb) l ops)).
 Proof. exact gen_lrun_refines. Qed.
 
+(* a generated call that panics leaves the list / array object exactly as it was *)
+Theorem C01_gen_panic_leaves_unchanged :
+  forall (A : Type) (zero : A) (eqb : A -> A -> bool)
+         (ext : ident -> ident -> val A -> list (val A) -> option (val A))
+         (n : val A) (l : list A) (o : lop A) (F : nat),
+    translated A o = true -> (Z.of_nat (length l) + 1 < two63)%Z -> length l + 100 <= F ->
+    snd (lstep_spec zero eqb l o) = LPanic ->
+    panic_state A zero ext prog F (lst_val n l) (fst (gen_lop A o)) (snd (gen_lop A o)) = Some (lst_val n l).
+Proof.
+  intros A zero eqb ext n l o F T HL HF E. pose proof (gen_lstep A zero eqb ext n l o F T HL HF) as ST.
+  rewrite E in ST. unfold panic_state, call_at. rewrite ST. reflexivity.
+Qed.
+
 (* non-vacuity: on [10;20;30]: insert 5 at slot 1, remove index -1 (30), get index 2 (5), set index 9 (panics),
    range (2,3), size — run by the generated methods *)
 Example C01_gen_history_example :
@@ -291,3 +304,4 @@ Proof. split; vm_compute; reflexivity. Qed.
 Print Assumptions C01_gen_array_methods_compute_the_specification.
 Print Assumptions C01_gen_list_methods_compute_the_specification.
 Print Assumptions C01_gen_history_refinement.
+Print Assumptions C01_gen_panic_leaves_unchanged.
